@@ -274,11 +274,11 @@ prop("C09", level="model_checking",
 prop("C10", level="model_checking", engine="vgraph",
      technique="language equivalence by explicit-state product exploration between the captured graph of each literal definition and a reference built from the literal's bytes / per-character case-fold classes, over all literals up to a length bound",
      text="For every literal of length <= L over an alphabet with every regex metacharacter, cased non-ASCII characters and arbitrary bytes, in token / regex / skip form with and without ignore(case): exact language equivalence for all inputs, and leaf count / kinds / priorities unchanged by ignore(case).",
-     note="Same trusted base as C01; the reference never uses regex_syntax::escape.", design_ref="5 C10", steps=[step_selfcheck, step_vgraph("c10")], assumptions=L1_ASSUME)
+     note="Same trusted base as C01; the reference never uses regex_syntax::escape.", design_ref="5 C10", steps=[step_selfcheck, step_vgraph("c10"), step_layer2(["u-dev"], ["u-dev", "f-rel"])], assumptions=L1_ASSUME)
 prop("C11", level="model_checking", engine="vgraph",
      technique="language equivalence by explicit-state product exploration between the captured graph and a reference built from the harness's own textual inlining, over a subpattern family",
      text="Every definition of the subpattern family (bodies with alternations / inline flags / byte strings, references at start / middle / end / under repetition, one and two levels) is equivalent for all inputs to the reference built from scoped textual inclusion; undefined and forward references must be compile errors.",
-     note="Same trusted base as C01.", design_ref="5 C11", steps=[step_selfcheck, step_vgraph("c11")], assumptions=L1_ASSUME)
+     note="Same trusted base as C01.", design_ref="5 C11", steps=[step_selfcheck, step_vgraph("c11"), step_layer2(["u-dev"], ["u-dev", "f-rel"])], assumptions=L1_ASSUME)
 prop("C16", level="model_checking", engine="vgraph",
      technique="deviation-bounded schedule exploration: every hash-iteration site is a seam owned by the explorer; every seam call x every (bounded set of) permutation, single and paired deviations, both code generators; outputs must be byte-identical",
      text="The only nondeterminism (hash-container iteration order) is put behind seams; all single deviations (and pairs on small definitions) are executed on the real generate() and must leave the generated code and the graph byte-identical. A labelled sample of real hash seeds (fresh threads) supplements it.",
